@@ -543,6 +543,18 @@ class SimActorSystem:
         else:
             raise HarnessBug(kind)
 
+    def quiescent(self):
+        """nothing but periodic wake-ups is pending"""
+        if any(e[2] not in ("wakeup",) for e in self.events):
+            return False
+        return not any(c.loop is not None and not c.dead and c.loop.next_time() is not None for c in self.cells.values())
+
+    def run_until_quiescent(self, max_wait):
+        """let everything that is in flight play out (bounded)"""
+        limit = self.clock.now + max_wait
+        self.call_at(limit, lambda: None)
+        self.run_until(lambda: self.clock.now >= limit or self.quiescent())
+
     def call_at(self, t, fn):
         self.push(t, "call", fn)
 
